@@ -246,7 +246,12 @@ def run_matrix(rep):
 
     def mine():
         idx[0] += 1
+        if idx[0] % 64 == 0 and rep.out_of_time():
+            truncated[0] = True
+        if truncated[0]:
+            return False
         return idx[0] % rep.nshards == rep.shard
+    truncated = [False]
 
     def terms_for(ts, same_sym):
         seen = {}
@@ -373,6 +378,8 @@ def run_matrix(rep):
                              {kconst[kt][0]: argterm(mgr, env, vt, 1)}], {},
                             ok, (it, dt, kt, vt))
     rep.count('matrix_calls', mx.calls)
+    if truncated[0]:
+        rep.notes.append('operator matrix truncated by the time budget')
 
 
 def run_mixed(rep):
@@ -451,12 +458,120 @@ def run_mixed(rep):
     rep.count('nodes_typed_total', nm.nodes_typed - before)
 
 
+def run_parser_matrix(rep):
+    """Operator applications written as SMT-LIB text: ill-sorted ones must
+    raise, the others must come back well-typed.  pySMT documents one
+    leniency: a *ground* integer term may stand for a real.  An Int term
+    with a free variable next to a Real operand is ill-sorted."""
+    from io import StringIO
+    from pysmt.smtlib.parser import SmtLibParser
+    from . import smtread as S
+    decl = ('(declare-fun x () Int)(declare-fun y () Int)'
+            '(declare-fun r () Real)(declare-fun s () Real)'
+            '(declare-fun p () Bool)(declare-fun b () (_ BitVec 4))'
+            '(declare-fun c () (_ BitVec 3))(declare-fun t () String)'
+            '(declare-fun a () (Array Int Int))'
+            '(declare-fun f (Int Real) Bool)')
+    operands = {
+        'IV': 'x', 'IC': '(+ x y)', 'IC2': '(* 2 x)', 'II': '(ite p x y)',
+        'IK': '2', 'IG': '(+ 1 2)',
+        'RV': 'r', 'RC': '(+ r s)', 'RK': '2.5', 'RI': '(ite p r s)',
+        'B': 'p', 'BV4': 'b', 'BV3': 'c', 'S': 't', 'A': 'a',
+        'SEL': '(select a x)', 'LEN': '(str.len t)', 'NAT': '(bv2nat b)',
+    }
+    int_open = ('IV', 'IC', 'IC2', 'II', 'SEL', 'LEN', 'NAT')
+    int_ground = ('IK', 'IG')
+    real = ('RV', 'RC', 'RK', 'RI')
+    ops2 = ['+', '-', '*', '<', '<=', '>', '>=', '=', 'distinct']
+    forms = []
+    for op in ops2:
+        for k1 in operands:
+            for k2 in operands:
+                body = '(%s %s %s)' % (op, operands[k1], operands[k2])
+                if op in ('+', '-', '*'):
+                    body = '(= %s %s)' % (body, body)
+                forms.append((op, (k1, k2), '(assert %s)' % body))
+    for k1 in operands:
+        for k2 in operands:
+            forms.append(('ite', (k1, k2), '(assert (= (ite p %s %s) '
+                          '(ite p %s %s)))' % (operands[k1], operands[k2],
+                                               operands[k1], operands[k2])))
+            forms.append(('f', (k1, k2), '(assert (f %s %s))' % (
+                operands[k1], operands[k2])))
+            forms.append(('store', (k1, k2), '(assert (= a (store a %s %s)))'
+                          % (operands[k1], operands[k2])))
+    for i, (op, kinds, text) in enumerate(forms):
+        if i % rep.nshards != rep.shard:
+            continue
+        full = decl + text
+        try:
+            S.Reader().run(full)
+            strict_ok = True
+        except S.SmtError as e:
+            strict_ok = False
+            if e.kind not in ('ill-sorted',):
+                rep.count('parser_matrix_outside')
+                continue
+        # documented leniency: ground Int terms next to Real operands
+        lenient = (not strict_ok and all(k in int_ground or k in real
+                                         for k in kinds)
+                   and op not in ('store',))
+        if op == 'f' and not strict_ok and kinds[0] not in int_open + \
+                int_ground:
+            lenient = False
+        if op == 'f' and not strict_ok and kinds[0] in int_open + \
+                int_ground and kinds[1] in int_ground:
+            lenient = True
+        env = common.fresh_env()
+        rep.case(key='parse:' + text)
+        rep.count('parser_matrix_cases')
+        try:
+            with warnings.catch_warnings():
+                warnings.simplefilter('ignore')
+                script = SmtLibParser(env).get_script(StringIO(full))
+            f = [c for c in script.commands if c.name == 'assert'][0].args[0]
+            accepted = True
+        except Exception:
+            accepted = False
+        if strict_ok and not accepted:
+            rep.violation('C03/parser/rejects-well-sorted/%s(%s)' % (
+                op, ','.join(kinds)), 'the parser rejects %s' % text,
+                {'text': full})
+        elif not strict_ok and accepted and not lenient:
+            rep.violation('C03/parser/accepted-ill-sorted/%s(%s)' % (
+                op, ','.join(sorted(set(
+                    'Int-open' if k in int_open else 'Int-ground'
+                    if k in int_ground else 'Real' if k in real else k
+                    for k in kinds)))),
+                'the parser accepts the ill-sorted %s and returns %s' % (
+                    text, f), {'text': full})
+        elif accepted:
+            try:
+                B.typeof(B.describe(f))
+                rep.count('parser_matrix_well_typed')
+            except B.IllTyped as e:
+                rep.violation('C03/parser/ill-typed-result/%s' % op,
+                              '%s parsed into an ill-typed formula: %s' % (
+                                  text, e), {'text': full})
+        else:
+            rep.count('parser_matrix_rejections')
+
+
 def run(rep):
     M.NODE_MONITOR.install()
+    if rep.shard == 0 and (not rep.only or rep.only == 'testsuite'):
+        # the repository's own tests as one more workload for the
+        # create_node monitor (runs beside the other shards)
+        common.run_repo_tests_monitored(rep, ('C03', 'monitor'))
+    rep.share(0.55)
     if not rep.only or rep.only == 'matrix':
         run_matrix(rep)
+    rep.share(0.9)
     if not rep.only or rep.only == 'mixed':
         run_mixed(rep)
+    rep.share(1.0)
+    if not rep.only or rep.only == 'parser':
+        run_parser_matrix(rep)
     nm = M.NODE_MONITOR
     rep.count('nodes_typed_by_create_node_monitor', nm.nodes_typed)
     seen = set()
